@@ -9,19 +9,22 @@
 (*   <<"eval", i>>   load source i afresh, evaluate and manifest            *)
 (*   <<"again", i>>  evaluate the thunk of the latest load of source i again *)
 (*   <<"call", i>>   evaluate source i (a function) and call it             *)
+(*   <<"callsrc", i> evaluate source i (a function) and call it with the     *)
+(*                   thunks of other sources (their latest loads) as arguments *)
 (*   <<"gc">>        explicit collection                                    *)
 (*   <<"limit", s>>  set_max_stack(s)                                       *)
 (***************************************************************************)
 EXTENDS Integers, Sequences, FiniteSets, TLC
 
 CONSTANTS Sources,     \* set of source indexes
-          CallSources, \* sources that are functions
+          CallSources, \* sources that are functions (called with fresh argument code)
+          CallSrcSources, \* functions called with the thunks of other sources as arguments
           Limits,      \* frame limits
           MaxLen       \* history length
 
 Requests ==
   {<<"eval", i>> : i \in Sources} \cup {<<"again", i>> : i \in Sources}
-  \cup {<<"call", i>> : i \in CallSources} \cup {<<"gc">>} \cup {<<"limit", s>> : s \in Limits}
+  \cup {<<"call", i>> : i \in CallSources} \cup {<<"callsrc", i>> : i \in CallSrcSources} \cup {<<"gc">>} \cup {<<"limit", s>> : s \in Limits}
 
 VARIABLES hist,     \* requests so far
           limit,    \* frame limit in force
@@ -37,7 +40,7 @@ Do(r) ==
   /\ Len(hist) < MaxLen
   /\ hist' = Append(hist, r)
   /\ limit' = IF r[1] = "limit" THEN r[2] ELSE limit
-  /\ loaded' = IF r[1] \in {"eval", "again", "call"} THEN loaded \cup {r[2]} ELSE loaded
+  /\ loaded' = IF r[1] \in {"eval", "again", "call", "callsrc"} THEN loaded \cup {r[2]} ELSE loaded
 
 Next == \E r \in Requests : Do(r)
 
